@@ -83,8 +83,9 @@ RETRY:
 			return nil, 0, 0, 0, ErrCommitLogReadonly
 		} else if pkgErrors.Cause(err) == ErrSegmentReplaced {
 			// ErrSegmentReplaced indicates we attempted to read from a log
-			// segment that was replaced due to compaction, so reinitialize the
-			// contextReader and try again to read from the new segment.
+			// segment that was replaced due to compaction or deleted due to
+			// retention, so reinitialize the contextReader and try again to
+			// read from the new segment.
 			if r.uncommitted {
 				r.ctxReader, err = r.log.newReaderUncommitted(r.offset)
 			} else {
